@@ -124,6 +124,12 @@ func runPermGroup(sc *gScen, k, natural int, tags []string, w *hx.Writer) {
 			}
 		}
 	}
+	// what a configuration slot receives does not depend on the start either: it is the configured value, every time
+	for _, r := range runs {
+		for _, k2 := range r.cfgBad {
+			add("c10-config-value", "%s", k2)
+		}
+	}
 	verdict := joinFails(fails)
 	for j, r := range runs {
 		if r.status == "hang" {
@@ -181,6 +187,18 @@ func gpermGen(rng *hx.Rng, n int, tier string, w *hx.Writer) {
 		}
 		if active() {
 			runPermGroup(sc, k, nat, []string{tag}, w)
+		}
+	}
+	// seventh round (drawn after everything else): configuration slots with decoy keys and nested placeholders, qualified
+	// func points, the same-named local types
+	r7 := rng.Fork()
+	for i := 0; i < n/25+2; i++ {
+		if active() {
+			cs := genConfigSlots(r7.Fork())
+			cs.nodes[0].cfg = []int{11, 9, 11, 8}[i%4] // the decoy section in every other group
+			runPermGroup(cs, k, nat, []string{"configslots"}, w)
+			runPermGroup(genFuncQualified(r7.Fork()), k, nat, []string{"funcq"}, w)
+			runPermGroup(genTwinIfaces(r7.Fork()), k, nat, []string{"twinifaces"}, w)
 		}
 	}
 }
